@@ -405,9 +405,12 @@ func (g *stopGuard) workerCreated() {
 	g.workers.Add(1)
 }
 
-// source wraps the source of the stage
+// source wraps the source of the stage. A panic raised in the source is passed
+// to the stage as an error: otherwise the panic would unwind the iteration of
+// the source, while the workers and the collector of a stage which is executed
+// in parallel are still running and calling the consumer.
 func (g *stopGuard) source(p iterator.Producer[Value]) iterator.Producer[Value] {
-	return stoppableProducer(p, &g.stopped)
+	return recoveringProducer(stoppableProducer(p, &g.stopped))
 }
 
 // run iterates the stage and passes the items to the consumer
